@@ -185,6 +185,10 @@ def cleanup_completed_stage_claims(pool: Any) -> int:
                     SELECT id FROM pipeline_executions
                     WHERE status = ANY(%(statuses)s)
                 )
+                AND stage_id NOT IN (
+                    SELECT id FROM stage_executions
+                    WHERE status IN ('RUNNING', 'SUSPENDED', 'PAUSED')
+                )
                 """,
                 {"statuses": terminal},
             )
